@@ -18,6 +18,9 @@ def run(ck):
     pipeline.overflow_dispatch(ck, "C02.R6", "C03.R2", roles)
     pipeline.store_pipeline(ck, "C01.R2", want_bounds=True)
     carriers.threshold_everywhere(ck, "C18.R1")
+    from . import funcs, sizes
+    funcs.governing_config(ck, "C08.R3")               # results stored with wrap: the wrap configuration must be the one the result carries
+    sizes.resize_rules(ck, {"restore_raw": "C10.R1"})  # resize re-stores exact integer codes (no float detour at 64+ bits)
     # products stored with wrap into 64+ bit registers: the multiply must not fold modulo 2^64 first
     from . import widths
     widths.kernel_widths(ck, "C19.R1", None, names=("mul",))
